@@ -96,11 +96,12 @@ def gen_case(case_seed, cfg):
     grid = [i * step for i in range(npts)]
     vnum = r.choice([1.7, 0.3, 4.0, 1.0])
     vobj = r.choice(["const", "const", "dividing"])
+    vcycle = r.choice([0.6, 0.6, 1.2, 2.5])     # cell cycle / horizon: division early, late, or never within the grid
     # the lattice point of this case is called first; then up to two more calls (other lattice points) on the SAME model
     # object / interfaces: a result must be complete and start from the initial condition whatever was simulated before
     extra = [r.randrange(128) for _ in range(r.choice([0, 1, 2, 2]))]
     return {"model": model, "grid": grid, "stratum": stratum, "bseed": seeds.bioscrape_seed(case_seed, "run"),
-            "vnum": vnum, "vobj": vobj, "lattice": None, "extra_calls": extra}
+            "vnum": vnum, "vobj": vobj, "vcycle": vcycle, "lattice": None, "extra_calls": extra}
 
 
 def _first_row_expected(model, stochastic_mode):
@@ -158,7 +159,7 @@ def _one_call(case, lp, shared, pos):
             v = Volume()
             v.py_set_volume(case["vnum"])
         else:
-            v = StochasticTimeThresholdVolume(case["grid"][-1] * 0.6, case["vnum"] * 1.5, 0.05)
+            v = StochasticTimeThresholdVolume(case["grid"][-1] * case.get("vcycle", 0.6), case["vnum"] * 1.5, 0.05)
             st0 = np.array([float(model["init"].get(s, 0)) for s in species_order])
             v.py_initialize(st0, np.zeros(1), 0.0, case["vnum"])
             dividing = True
@@ -206,6 +207,11 @@ def _one_call(case, lp, shared, pos):
     stochastic_mode = lp["stochastic"] or lp["delay"]
     result_sig = None
     n_rows = 0
+    if dividing and stochastic_mode:
+        # "one row per requested time point up to cell division": the volume object itself says at which growth tick k*dt it
+        # divides (asked after the run, with the division time it was initialised with); rows 0..k are then due
+        dividing = _division_tick(kw["volume"], grid, len(species_order))
+        stats["division_within_grid" if dividing[1] is not None else "division_after_grid"] = 1
     if outcome == "returned":
         stats["returned"] = 1
         expect_vol = vol_in_play and stochastic_mode
@@ -248,6 +254,15 @@ def _one_call(case, lp, shared, pos):
             "nontrivial": outcome == "returned" and n_rows >= 2, "digest": h, "sim_time": case["grid"][-1]}
 
 
+def _division_tick(v, grid, nspecies):
+    dt = float(grid[1] - grid[0])
+    st, pr = np.zeros(nspecies), np.zeros(1)
+    for k in range(1, len(grid)):
+        if v.py_cell_divided(st, pr, k * dt, 1.0, dt):
+            return ("tick", k)
+    return ("tick", None)
+
+
 def _lp_index(lp):
     return (int(lp["stochastic"]) | int(lp["delay"]) << 1 | int(lp["safe"]) << 2 | VOLS.index(lp["volume"]) << 3
             | int(lp["dataframe"]) << 5 | int(lp["via"] == "model") << 6)
@@ -264,10 +279,16 @@ def _check_result(case, lp, rows, t, vols, divided, dividing, stochastic_mode, s
     if rows.ndim != 2 or rows.shape[1] != len(species_order):
         bad("wrong_number_of_species_columns", shape=list(rows.shape), species=len(species_order))
         return ("shape",)
-    can_divide = dividing and stochastic_mode and lp["volume"] == "object"
+    can_divide = bool(dividing) and stochastic_mode and lp["volume"] == "object"
     if nr != n and not (can_divide and 1 <= nr < n):
         bad("wrong_number_of_rows", rows=nr, requested=n)
         return ("rows",)
+    if can_divide and isinstance(dividing, tuple):
+        k = dividing[1]
+        want = n if k is None else k + 1
+        if nr != want:
+            bad("rows_do_not_end_at_cell_division", rows=nr, requested=n, division_tick=k, expected_rows=want)
+            return ("rows",)
     if len(t) != nr or not np.array_equal(t, grid[:nr]):
         bad("time_axis_differs_from_request", got=t[:5].tolist(), requested=grid[:5].tolist(), rows=nr)
         return ("time",)
